@@ -15,7 +15,7 @@ import (
 // generated struct), with their settings passed through serix.WithTypeSettings where the registry has none.
 func TestTopLevelRoundTrip(t *testing.T) {
 	const check = "toplevel_roundtrip"
-	stats.Rule(check, "a top-level object is drawn (named pool collection; unnamed slice with any array rules / map / array of non-bytes / string / byte slice with call-level settings; leaf; interface value decoded through a pointer to the interface; pool struct by value or pointer; custom (de)serializable; coded byte-array pointer) with a value (3/4 valid, 1/4 free), validation off and on. For every value Encode accepts: Decode yields an equal value, consumes exactly the produced bytes also when 1..9 junk bytes follow, decoding with the other validation mode agrees when the value is rule-abiding, and a second Encode gives identical bytes. Distinct by (kind, shape, value); non-trivial = call-level settings or an interface value")
+	stats.Rule(check, "a top-level object is drawn (named pool collection; unnamed slice with any array rules / map / array of non-bytes / string / byte slice with call-level settings; leaf; interface value decoded through a pointer to the interface; pool struct by value or pointer; custom (de)serializable; coded byte-array pointer) with a value (3/4 valid, 1/4 free), validation off and on. For every value Encode accepts: Decode yields an equal value, consumes exactly the produced bytes also when 1..9 junk bytes follow, decoding with the other validation mode agrees when the value is rule-abiding, and a second Encode gives identical bytes; if JSONEncode (same call-level settings) accepts the object, JSONDecode reads it back to a model-equal value. Distinct by (kind, shape, value); non-trivial = call-level settings or an interface value")
 	rapid.Check(t, func(rt *rapid.T) {
 		c := serixgen.NewCaseWithTop(rt, cfg())
 		n := c.Top
@@ -69,6 +69,28 @@ func TestTopLevelRoundTrip(t *testing.T) {
 			}
 			if again := c.EncodeTop(v, validate); again.Err != nil || !bytes.Equal(again.Bytes, enc.Bytes) {
 				fail(ex, "second Encode differs: %x (err %v)", again.Bytes, again.Err)
+			}
+			// the JSON form of the same object with the same call-level settings: most top-level kinds have no map form
+			// that is an object and are refused; what JSONEncode accepts has to be read back
+			if ok, _ := serixgen.JSONExpressible(n); ok && !serixgen.HasInvalidUTF8(n, v) {
+				je := c.JSONEncodeTop(v, validate)
+				switch {
+				case je.Panic != nil:
+					fail(ex, "JSONEncode of the top-level object panicked: %v", je.Panic)
+				case je.Err != nil:
+					labels = append(labels, "json_refused")
+				default:
+					ex["json"] = string(je.Bytes)
+					jd := c.JSONDecodeTop(je.Bytes, validate)
+					if jd.Panic != nil || jd.Err != nil {
+						fail(ex, "JSONDecode of JSONEncode's output failed: panic=%v err=%v", jd.Panic, jd.Err)
+					}
+					if d := serixgen.EqualJSON(n, v, jd.Value); d != "" {
+						ex["decoded"] = serixgen.Render(n, jd.Value)
+						fail(ex, "JSON-decoded value differs: %s", d)
+					}
+					labels = append(labels, "json_roundtrip")
+				}
 			}
 		}
 		stats.Case(check, accepted > 0 && (c.TopCall != nil || n.Kind == serixgen.KIface), c.TopKind+"|"+n.String()+"|"+serixgen.Render(n, v), func() any {
